@@ -36,6 +36,35 @@ Fixpoint wf_prefix (ops : list op) (res : list outcome) (msgs : list (key * key)
   | _, _ => O
   end.
 
+(* every release of the history is by a holder *)
+Fixpoint well_formed (ops : list op) (res : list outcome) (msgs : list (key * key)) (dsts : list key) : bool :=
+  match ops, res with
+  | o :: ops', r :: res' =>
+      match o with
+      | TakeMsg ip src => well_formed ops' res' (match r with ROk => (ip, src) :: msgs | _ => msgs end) dsts
+      | TakeDest d => well_formed ops' res' msgs (match r with ROk => d :: dsts | _ => dsts end)
+      | ReleaseMsg ip src =>
+          match remove_one0 kk_eqb0 (ip, src) msgs with Some m => well_formed ops' res' m dsts | None => false end
+      | ReleaseDest d =>
+          match remove_one0 str_eqb d dsts with Some m => well_formed ops' res' msgs m | None => false end
+      | _ => well_formed ops' res' msgs dsts
+      end
+  | _, _ => true
+  end.
+(* on such a history the whole of it is compared *)
+Lemma wf_prefix_all ops : forall res msgs dsts,
+  length ops = length res -> well_formed ops res msgs dsts = true -> wf_prefix ops res msgs dsts = length ops.
+Proof.
+  induction ops as [|o ops IH]; intros res msgs dsts Hl Hw; [reflexivity|].
+  destruct res as [|r res]; [discriminate|]. cbn [length] in Hl. injection Hl as Hl.
+  cbn [wf_prefix well_formed length] in *. destruct o as [ip src|ip src|d|d|].
+  - f_equal. apply IH; assumption.
+  - destruct (remove_one0 kk_eqb0 (ip, src) msgs); [|discriminate]. f_equal. apply IH; assumption.
+  - f_equal. apply IH; assumption.
+  - destruct (remove_one0 str_eqb d dsts); [|discriminate]. f_equal. apply IH; assumption.
+  - f_equal. apply IH; assumption.
+Qed.
+
 Definition agrees (c : case) : bool :=
   let k := wf_prefix (c_ops c) (c_res c) [] [] in
   Nat.eqb (length (c_ops c)) (length (c_res c)) &&
